@@ -68,7 +68,7 @@ def closure0(P, it, b):
             "filter": f"|t: &rt::Tok| rt::of({i}, t)",
         }[op]
     return {
-        "map": f"|t: rt::Tok| rt::m({i}, t)",
+        "map": f"|t: rt::Tok| {{ return rt::m({i}, t); }}",      # (a callback is a function boundary, too)
         "and_then": f"|t: rt::Tok| rt::a({i}, t)",
         "or_else": f"|e: rt::Fail| rt::o({i}, e)",
         "map_err": f"|e: rt::Fail| rt::e({i}, e)",
@@ -193,7 +193,8 @@ def handler_src(P):
             body = f"rt::ho(&mut [{arr}])" if opt else f"rt::hr(&mut [{arr}])"
     else:
         body = f"rt::aht({hid}, &mut [{arr}])" if a else f"rt::h(&mut [{arr}])"
-    c = tick(f"|{params}| {body}")
+    # the body leaves the closure with `return`: a handler is a function boundary, its value is what the macro goes on with
+    c = tick(f"|{params}| {{ return {body}; }}")
     if P.get("hform", "closure") == "call":
         c = f"({{ rt::hx(); {c} }})"
     return f"{h} => {c}"
